@@ -5,7 +5,7 @@
 From Coq Require Import List NArith Bool.
 From Coq.Strings Require Import Byte.
 From MS Require Import Base.Bytes Base.Outcome Base.Prog Webp.Container Webp.Grammar Webp.ContainerProofsSound
-  Webp.ContainerProofsAllow.
+  Webp.ContainerProofsAllow Webp.ContainerProofsUnknown.
 Open Scope N_scope.
 
 (* results under the two settings, same input, same reader (strict or seek-style, any seek bound), same fuel:
@@ -39,3 +39,13 @@ Theorem C14_known_chunk_never_out_of_place :
   webp_spec (fun w h b => is_ok (lossless w h b)) true inp = true.
 Proof. intros lossless lenient ms inp fuel. exact (webp_sanitize_sound lossless true lenient ms inp fuel). Qed.
 Print Assumptions C14_known_chunk_never_out_of_place.
+
+(* the rejections the option turns into acceptance concern unknown chunks only: an UnsupportedChunk error always names
+   a chunk outside the known set {ALPH, ANIM, ANMF, EXIF, ICCP, VP8, VP8L, VP8X, XMP} - for every reader (faults
+   included), reader state, configuration and fuel, and every lossless validator that does not itself report it *)
+Theorem C14_unsupported_chunk_names_unknown :
+  forall (R : reader) (lossless : N -> N -> bytes -> res unit) (allow : bool) (fuel : nat) (s : rst R) (t : bytes),
+  (forall w h b t', lossless w h b <> EParse (UnsupportedChunk t')) ->
+  fst (run R (webp_prog lossless allow fuel) s) = EParse (UnsupportedChunk t) -> known t = false.
+Proof. exact unsupported_chunk_is_unknown. Qed.
+Print Assumptions C14_unsupported_chunk_names_unknown.
